@@ -5,13 +5,13 @@ import json, subprocess
 TECH = "contract-based deductive verification of the real code: weakest-precondition VCs generated from go/ssa of /repo, contracts in /repo/contracts_verif.go (build tag verif), every obligation discharged by z3 5.1 / z3 4.8 / cvc5"
 
 CLAIMED = {
- "C04": ("proof", "Pool discipline of the schema-validation path as contracts: every constructor re-initialises every field of a borrowed validator (init-complete, two-copy non-interference), a borrowed Result is cleared, every write goes to a pool/fresh object, the receiver's own subtree or a declared location (write-ok, call-effects), nothing is used after it was redeemed (live), redeem happens exactly once (preconditions of the Redeem* functions). Proof-level for the functions under contract (pools, Result, leaf validators, SchemaValidator, schemaSliceValidator, constructors, AgainstSchema); obligations that do not discharge on the unchanged tree are listed in the evidence as unproven and are not claimed; validators outside the contract set (schemaPropsValidator helpers, objectValidator helpers, Param/Header/items validators, spec validation) are not covered.", "§11.3"),
+ "C04": ("proof", "Pool discipline of the schema-validation path as contracts: every constructor re-initialises every field of a borrowed validator (init-complete, two-copy non-interference), a borrowed Result is cleared, every write goes to a pool/fresh object, the receiver's own subtree or a declared location (write-ok, call-effects), nothing is used after it was redeemed (live), redeem happens exactly once (preconditions of the Redeem* functions). Proof-level for the functions under contract (pools, Result, leaf validators, SchemaValidator, schemaSliceValidator, objectValidator and schemaPropsValidator with their helpers, items/header/parameter validators, constructors, AgainstSchema); obligations that do not discharge on the unchanged tree (mainly the call sites of schemaPropsValidator.Validate, its constructor and redeemChildren) are listed in the evidence as unproven and are not claimed; spec validation (spec.go, default/example validators) is not covered.", "§11.3"),
  "C05": ("proof", "The ownership half of race freedom, for all schedules because it is per-call: a validation writes only objects it owns exclusively (borrowed from a sync.Pool or freshly allocated, or the subtree of the validator it was called on), never reads an object after redeeming it, and the regexp cache publishes only immutable maps built under the mutex (C15 contracts). Sharing of one long-lived validator between goroutines is covered by the C08 obligations (no write to self without recycling). Not covered: the package-level default options (D9, see DESIGN §11.5) and spec validation.", "§11.3"),
  "C06": ("proof", "No-panic sweep: for every function reachable from AgainstSchema / NewSchemaValidator / (*SchemaValidator).Validate the generator emits a safety obligation for each nil dereference, index, slice bound, type assertion, division, map write, reflect call and explicit panic; callers are checked against callee preconditions. Proof-level for the obligations that discharge; the rest are listed as unproven in the evidence and not claimed. Termination is not proved (partial correctness).", "§11.4"),
  "C07": ("proof", "Same no-panic sweep over the functions reachable from Spec / NewSpecValidator / (*SpecValidator).Validate. Most of this code calls into go-openapi/spec, analysis and loads through coarse assumed contracts, so the discharged fraction is smaller; undischarged obligations are listed as unproven, not claimed.", "§11.4"),
  "C08": ("proof", "Statelessness of validators built without recycling as a postcondition: when Options.recycleValidators is false, Validate leaves every field of the receiver (and the elements of the child lists it owns) unchanged, and the effects discipline forbids writes to any other pre-existing object; results are fresh or borrowed. Functions under contract as for C04.", "§11.3"),
  "C10": ("proof", "Only the Result-level part of the property: validity is exactly the absence of errors (warnings never make a result invalid: IsValid), and merging as warnings moves every message to the warnings and leaves the errors untouched (MergeAsWarnings). Determinism across runs / map iteration order and monotonicity between the continue-on-errors modes are relational properties of spec.go and are not decided.", "§11.6b"),
- "C11": ("proof", "Panic edges are explicit in the VCs: deferred calls run on every panic path, with their preconditions (no double redeem: Redeem* require a live object) and the on_panic postcondition `redeemed(self) == recycle` checked there. Covers AgainstSchema, SchemaValidator, schemaSliceValidator, formatValidator; panics can only originate in callees declared maypanic (format checker, ExpandSchema).", "§11.3"),
+ "C11": ("proof", "Panic edges are explicit in the VCs: deferred calls run on every panic path, with their preconditions (no double redeem: Redeem* require a live object) and the on_panic postcondition `redeemed(self) == recycle` checked there. Covers AgainstSchema, SchemaValidator, schemaSliceValidator, objectValidator, formatValidator, the items/header/parameter validators and the helpers of schemaPropsValidator; panics can only originate in callees declared maypanic (format checker, ExpandSchema).", "§11.3"),
  "C12": ("proof", "Read-only inputs for schema validation as a frame condition: every heap write of the functions under contract is checked (write-ok) to hit a pool/fresh object, the receiver's subtree or a declared location, so the instance (maps, slices, boxed values) and a caller's schema are never written; scratch schemas come from the schema pool. Spec validation (document and parsed spec unchanged) is not covered.", "§11.3"),
  "C13": ("proof", "Each numeric helper against an exact spec function over mathematical reals/integers, bit-precise conversions; the regions where the code disagrees with exact arithmetic are carved out as known findings (D4, D17) and replayed on the real code on every run.", "§6 C13"),
  "C14": ("proof", "Each exported value helper against its textbook definition (rune counts, deep equality, zero values, regexp search via the assumed regexp contract, registry semantics uninterpreted).", "§6 C14"),
